@@ -210,6 +210,23 @@ fn real_forwarder_cases(rep: &Arc<Reporter>, args: &Args) {
             (false, "localhost:1".to_string(), 502, Some("311"), "real: name resolving to loopback"),
             (true, "nonexistent.invalid:80".to_string(), 502, Some("300"), "real: resolver failure"),
         ];
+        // OS errors of the connect itself, through the real TcpForwarder::connect and its errno mapping (hook: scripted connect error)
+        let errnos: Vec<(i32, &str, &str)> = vec![
+            (libc::ENETUNREACH, "301", "real: connect fails with ENETUNREACH"), (libc::EHOSTUNREACH, "301", "real: connect fails with EHOSTUNREACH"),
+            (libc::ETIMEDOUT, "302", "real: connect fails with ETIMEDOUT"), (libc::ECONNREFUSED, "300", "real: connect fails with ECONNREFUSED"),
+            (libc::ECONNRESET, "300", "real: connect fails with ECONNRESET"), (libc::EMFILE, "300", "real: connect fails with EMFILE"),
+            (libc::ENFILE, "300", "real: connect fails with ENFILE"), (libc::EACCES, "300", "real: connect fails with EACCES"), (libc::EADDRNOTAVAIL, "300", "real: connect fails with EADDRNOTAVAIL"),
+        ];
+        let mut cases = cases;
+        let mut owned: Vec<(bool, String, u16, Option<&str>, &str)> = vec![];
+        for (k, (errno, warn, name)) in errnos.iter().enumerate() {
+            for (j, host) in [format!("198.51.100.{}", 10 + k), format!("[2001:db8::{:x}]", 0x10 + k)].into_iter().enumerate() {
+                let authority = format!("{}:{}", host, 8000 + j);
+                trusttunnel::verif::net::script_connect_error(authority.parse().unwrap(), Some(*errno));
+                owned.push((true, authority, 502, Some(*warn), *name));
+            }
+        }
+        cases.extend(owned);
         let mut id = 5000;
         for (allow, authority, status, warning, name) in cases {
             let ctx = Arc::new(env::make_ctx(&dir, env::CtxOpts { allow_private: allow, ..Default::default() }));
@@ -222,7 +239,7 @@ fn real_forwarder_cases(rep: &Arc<Reporter>, args: &Args) {
                     _ => h2_session(&ctx, how, "main.test", std::slice::from_ref(&req), Duration::from_secs(8), id).await.pop().unwrap_or_default(),
                 };
                 rep.evals(1);
-                rep.distinct(common::fnv(format!("{}|{:?}", name, proto).as_bytes()));
+                rep.distinct(common::fnv(format!("{}|{}|{:?}", name, authority.starts_with('['), proto).as_bytes()));
                 let w = json!({"kind":"tunnel-request-real","case":name,"protocol":format!("{:?}", proto),"authority":authority,"response":resp.summary()});
                 let ok_warn = match (warning, resp.header("x-warning")) { (None, _) => true, (Some(c), Some(v)) => v.starts_with(c), (Some(_), None) => false };
                 if resp.status != Some(status) || !ok_warn || resp.heads != 1 {
